@@ -137,4 +137,23 @@ func init() {
 		},
 		TrustedBase: []string{stdTrusted, "symbolic models of fmt.Sprintf, strings.ReplaceAll/Join/Contains/HasPrefix, strings.Builder, json.Marshal(string)"},
 	})
+
+	reg(&PropertySpec{
+		ID: "C07", Level: "model_checking",
+		Rule: "one state = one feasible path of the real generator for one symbolic counter value / path shape / mode; the module each path produces is handed to the linked OPA's real parser+compiler (native on concrete text)",
+		Harnesses: func(tier string) []HarnessSpec {
+			return []HarnessSpec{
+				{Pkg: "internal/generator", Fn: "VerifC07VarNames", Reach: []string{"generated"}, Bounds: map[string]any{"variable_counter": "0..40 (symbolic)", "quantifier": "nested | atLeast"}},
+				{Pkg: "internal/parser/profile", Fn: "VerifC07Genvar", Reach: []string{"named"}, Bounds: map[string]any{"counter": "7 boundary bases (0, 90, 9990, 999990, 2^31-8, 2^53-8, 2^62-8) + symbolic offset 0..15"}},
+				{Pkg: "internal/generator", Fn: "VerifC07GenvarNames", Reach: []string{"generated"}, Bounds: map[string]any{"counter": "as VerifC07Genvar"}},
+				{Pkg: "internal/generator", Fn: "VerifC07PathBindings", Reach: []string{"traversed"}, Bounds: map[string]any{"path_shapes": 21, "modes": "property set | node set (nested) | array (uniqueValues)"}},
+			}
+		},
+		Assumptions: []string{
+			"acceptance is decided by the real parser/compiler of OPA v0.47.0 linked into /verif (the version /repo/go.mod pins) on the concrete module text of each path",
+			"counter wrap-around at 2^63 is excluded; quantified variables beyond the 41st follow the X<n> scheme checked for n in 26..40",
+			"path shapes are the 21 listed in the harness (depth <= 3, every operator mix); acceptance of modules beyond these shapes and the C01/C02 families is outside",
+		},
+		TrustedBase: []string{stdTrusted, "OPA v0.47.0 parser/compiler as the oracle for 'the engine accepts'"},
+	})
 }
